@@ -397,30 +397,34 @@ def build(repo=None):
     # object identity, hashing, truth value or comparison of a tree or leaf is never consulted (one array used twice becomes two tracers)
     pm = get("jaxtyping/_pytree_type.py")
     flow_viol = []
-    for q in ("_MetaPyTree.__instancecheck__", "_MetaPyTree._check"):
-        f = pm.func(q)
+    ALLOWED = {"tree": {"_check", "tree_flatten"}, "list": {"enumerate", "len"}, "leaf": {"is_check_leaftype", "is_flatten_leaftype", "is_leaftype", "accepts_leaftype"}}
+    pt_helpers = {b_.name: b_ for b_ in pm.cls("_MetaPyTree").body if isinstance(b_, ast.FunctionDef)}
+    pt_helpers.update({b_.name: b_ for b_ in pm.tree.body if isinstance(b_, ast.FunctionDef)})
+
+    def flow(f, q, roles, depth=0):
+        """roles: parameter name -> 'tree' | 'list' | 'leaf' | 'leafcheck' (a callable that receives leaves). Every use of a tree / leaf list / leaf must be one of the allowed ones."""
         nested_fns = [n for n in ast.walk(f) if isinstance(n, ast.FunctionDef) and n is not f]
         inner = {id(x) for nf in nested_fns for x in ast.walk(nf)} | {id(x) for lam in ast.walk(f) if isinstance(lam, ast.Lambda) for x in ast.walk(lam)}
+        leafcheck_names = set(ALLOWED["leaf"]) | {k_ for k_, v_ in roles.items() if v_ == "leafcheck"}
 
         def own_nodes(scope_fn):
-            """nodes of scope_fn outside nested defs / lambdas (their parameters are other variables, even if spelled alike)"""
             if scope_fn is f:
                 return [n for n in ast.walk(f) if id(n) not in inner]
             return [n for n in ast.walk(scope_fn) if not any(id(n) in {id(x) for x in ast.walk(o)} for o in nested_fns if o is not scope_fn and o in list(ast.walk(scope_fn)))]
 
-        ALLOWED = {"tree": {"_check", "tree_flatten"}, "list": {"enumerate", "len"}, "leaf": {"is_check_leaftype", "is_flatten_leaftype", "is_leaftype", "accepts_leaftype"}}
-        # nested defs that RECEIVE leaves are the leaf-type checkers (a leaf handed to any other callee is flagged at the call site);
-        # other nested defs (e.g. a structure predicate applied to dummy trees) work on other data
-        scopes = [(f, {"obj"}, set(), set())] + [(nf, set(), set(), {a.arg for a in nf.args.args}) for nf in nested_fns if nf.name in ALLOWED["leaf"]]
+        scopes = [(f, {k_ for k_, v_ in roles.items() if v_ == "tree"}, {k_ for k_, v_ in roles.items() if v_ == "list"}, {k_ for k_, v_ in roles.items() if v_ == "leaf"})]
+        scopes += [(nf, set(), set(), {a.arg for a in nf.args.args}) for nf in nested_fns if nf.name in leafcheck_names]
         for scope_fn, tree_names, list_names, leaf_names in scopes:
             nodes = own_nodes(scope_fn)
             for n in nodes:
-                if isinstance(n, ast.Assign) and isinstance(n.value, ast.Call) and getattr(n.value.func, "attr", getattr(n.value.func, "id", "")) in ("tree_flatten", "tree_leaves") \
-                        and n.value.args and isinstance(n.value.args[0], ast.Name) and n.value.args[0].id in tree_names:
-                    t = n.targets[0]
-                    first = t.elts[0] if isinstance(t, ast.Tuple) else t
-                    if isinstance(first, ast.Name):
-                        list_names.add(first.id)
+                if isinstance(n, ast.Assign) and isinstance(n.value, ast.Call) and n.value.args and isinstance(n.value.args[0], ast.Name) and n.value.args[0].id in tree_names:
+                    callee = getattr(n.value.func, "attr", getattr(n.value.func, "id", ""))
+                    flat_like = callee in ("tree_flatten", "tree_leaves") or (callee in pt_helpers and callee not in ALLOWED["tree"] and any(isinstance(r_, ast.Return) and isinstance(r_.value, ast.Call) and getattr(r_.value.func, "attr", "") == "tree_flatten" for r_ in ast.walk(pt_helpers[callee])))
+                    if flat_like:
+                        t = n.targets[0]
+                        first = t.elts[0] if isinstance(t, ast.Tuple) else t
+                        if isinstance(first, ast.Name):
+                            list_names.add(first.id)
             for n in nodes:
                 if isinstance(n, (ast.For, ast.comprehension)):
                     it = n.iter
@@ -433,10 +437,33 @@ def build(repo=None):
             for n in nodes:
                 if isinstance(n, ast.Call):
                     callee = n.func.id if isinstance(n.func, ast.Name) else n.func.attr if isinstance(n.func, ast.Attribute) else "?"
+                    tainted_args = [(i_, a_) for i_, a_ in enumerate(n.args) if isinstance(a_, ast.Name) and a_.id in (tree_names | list_names | leaf_names)]
+                    helper = pt_helpers.get(callee) if (isinstance(n.func, ast.Name) or (isinstance(n.func, ast.Attribute) and isinstance(n.func.value, ast.Name) and n.func.value.id in ("cls", "self"))) else None
+                    if tainted_args and helper is not None and helper is not f and callee not in ALLOWED["tree"] and depth < 3:
+                        # a private helper of this file: analysed with the roles its parameters receive
+                        hp = [a.arg for a in helper.args.args]
+                        off = 1 if hp and hp[0] in ("cls", "self") and isinstance(n.func, ast.Attribute) else 0
+                        sub = {}
+                        for i_, a_ in enumerate(n.args):
+                            if i_ + off < len(hp) and isinstance(a_, ast.Name):
+                                if a_.id in tree_names:
+                                    sub[hp[i_ + off]] = "tree"
+                                elif a_.id in list_names:
+                                    sub[hp[i_ + off]] = "list"
+                                elif a_.id in leaf_names:
+                                    sub[hp[i_ + off]] = "leaf"
+                                elif a_.id in leafcheck_names:
+                                    sub[hp[i_ + off]] = "leafcheck"
+                        for k_ in n.keywords:
+                            if isinstance(k_.value, ast.Name) and k_.value.id in leafcheck_names and k_.arg in hp:
+                                sub[k_.arg] = "leafcheck"
+                        flow(helper, f"{q}->{callee}", sub, depth + 1)
+                        accounted |= {id(a_) for _, a_ in tainted_args}
+                        continue
                     for a in n.args:
                         if isinstance(a, ast.Name):
                             kind = "tree" if a.id in tree_names else "list" if a.id in list_names else "leaf" if a.id in leaf_names else None
-                            if kind and callee in ALLOWED[kind]:
+                            if kind and (callee in ALLOWED[kind] or (kind == "leaf" and callee in leafcheck_names)):
                                 accounted.add(id(a))
                 elif isinstance(n, ast.Compare) and isinstance(n.left, ast.Name) and n.left.id in tree_names and len(n.ops) == 1 and isinstance(n.ops[0], (ast.Is, ast.IsNot)) \
                         and isinstance(n.comparators[0], ast.Constant) and n.comparators[0].value is None:
@@ -446,6 +473,9 @@ def build(repo=None):
             for n in nodes:
                 if isinstance(n, ast.Name) and isinstance(n.ctx, ast.Load) and n.id in (tree_names | list_names | leaf_names) and id(n) not in accounted:
                     flow_viol.append(f"{q}:{n.lineno}:{n.id}")
+
+    for q in ("_MetaPyTree.__instancecheck__", "_MetaPyTree._check"):
+        flow(pm.func(q), q, {"obj": "tree"})
     ob("C17:pytree:the-tree-goes-only-to-tree_flatten-and-each-leaf-only-to-the-leaf-type-check(no-identity,hash,truth,comparison)", not flow_viol, ["C17", "C08"], uses=flow_viol[:8])
     ob("canary-struct:frames-analysed-functions", len(path_fns) >= 20, ["C06", "C12", "C17"], count=len(path_fns))
     return {"unit": NAME, "functions": functions, "obligations": obligations, "paths": 0, "stats": {"write_sites": n_sites, "functions": len(path_fns)},
